@@ -15,8 +15,31 @@ mod addr;
 mod http_resp;
 mod http_req;
 mod ws_codec;
+mod fuzz_misc;
 
 use std::collections::HashMap;
+
+/// Counting allocator (C12: bytes requested during one parser call). Counts every allocation
+/// and growth of every thread; the suites that read it are single-threaded.
+pub struct Counting;
+pub static ALLOCATED: std::sync::atomic::AtomicUsize = std::sync::atomic::AtomicUsize::new(0);
+unsafe impl std::alloc::GlobalAlloc for Counting {
+    unsafe fn alloc(&self, l: std::alloc::Layout) -> *mut u8 {
+        ALLOCATED.fetch_add(l.size(), std::sync::atomic::Ordering::Relaxed);
+        std::alloc::System.alloc(l)
+    }
+    unsafe fn dealloc(&self, p: *mut u8, l: std::alloc::Layout) {
+        std::alloc::System.dealloc(p, l)
+    }
+    unsafe fn realloc(&self, p: *mut u8, l: std::alloc::Layout, n: usize) -> *mut u8 {
+        if n > l.size() {
+            ALLOCATED.fetch_add(n - l.size(), std::sync::atomic::Ordering::Relaxed);
+        }
+        std::alloc::System.realloc(p, l, n)
+    }
+}
+#[global_allocator]
+static GLOBAL: Counting = Counting;
 
 pub struct Args {
     pub seed: u64,
@@ -119,6 +142,8 @@ fn main() {
         "http-resp" => http_resp::run(&args),
         "http-req" => http_req::run(&args),
         "ws-codec" => ws_codec::run(&args),
+        "fuzz-misc" => fuzz_misc::run(&args),
+        "deep-json" => fuzz_misc::deep_json(&args),
         "config-refusal" => http_resp::run_refusal(&args),
         "export-child" => export_crash::child(&args),
         other => {
